@@ -60,6 +60,9 @@ pub fn dispatch(id: &str, tier: Tier, seed: u64, sub: Option<&str>) -> i32 {
         if sub == Some("sanitizer") {
             return c19::sanitizer_workload(seed);
         }
+        if sub == Some("digest") {
+            return c19::digest_workload(seed);
+        }
         if sub == Some("miri") {
             return c19::miri_workload(seed);
         }
